@@ -236,6 +236,36 @@ def generate_coq(all_specs):
                 fn = f["funcs"][s["func"]]
                 typ = "N"
                 term = "(%d)%%N" % sum(1 for a in fn.get("assigns", []) if a["lhs"] == s["lhs"])
+            elif kind == "defer_calls":
+                # source text of every deferred call of func, in source order (nested blocks included)
+                fn = f["funcs"][s["func"]]
+                typ = "list bytes"
+                ds = [re.sub(r"\s+", " ", d) for d in fn.get("defers", [])]
+                term = "[" + "; ".join(coq_string_bytes(t) for t in ds) + "]"
+                comment = " | ".join(ds)
+            elif kind == "func_params":
+                # "name type" of every parameter of func, in order (pins parameter order of same-typed parameters)
+                fn = f["funcs"][s["func"]]
+                typ = "list bytes"
+                ps = [re.sub(r"\s+", " ", d) for d in fn.get("params", [])]
+                term = "[" + "; ".join(coq_string_bytes(t) for t in ps) + "]"
+                comment = " | ".join(ps)
+            elif kind == "struct_fields":
+                # "name type" of every field of struct type `type`, in order (pins "the object has no other state")
+                typ = "list bytes"
+                fs = [re.sub(r"\s+", " ", d) for d in f.get("structs", {})[s["type"]]]
+                term = "[" + "; ".join(coq_string_bytes(t) for t in fs) + "]"
+                comment = " | ".join(fs)
+            elif kind == "top_stmts":
+                # source text (whitespace collapsed, cut at 200 characters) of the first `first` top-level statements
+                # of func's body, in order: pins "the lock is taken first", "X happens before Y"
+                fn = f["funcs"][s["func"]]
+                typ = "list bytes"
+                st = [re.sub(r"\s+", " ", d)[:200] for d in fn.get("stmts", [])][:int(s.get("first", 3))]
+                if not st:
+                    raise KeyError("empty body")
+                term = "[" + "; ".join(coq_string_bytes(t) for t in st) + "]"
+                comment = " | ".join(st)
             elif kind == "has_call":
                 fn = f["funcs"][s["func"]]
                 typ = "bool"
